@@ -14,6 +14,7 @@ import (
 
 	"verifmon/internal/core"
 	"verifmon/internal/obs"
+	"verifmon/internal/ref"
 )
 
 var c06 = core.Register(&core.Prop{
@@ -29,7 +30,7 @@ var c06 = core.Register(&core.Prop{
 	Shards: func(tier string) int { return pickTier(tier, 4, 16) },
 	Floors: func(c map[string]int64, tier string) []string {
 		var out []string
-		for _, k := range []string{"op:not", "op:notnot", "op:cond", "op:and", "op:or", "op:nn", "branch_effect_cases", "identity_checked", "nested_cases", "dead_branch_cases", "same_runner_repeats"} {
+		for _, k := range []string{"op:not", "op:notnot", "op:cond", "op:and", "op:or", "op:nn", "branch_effect_cases", "identity_checked", "nested_cases", "dead_branch_cases", "same_runner_repeats", "flat_cases"} {
 			if c[k] == 0 {
 				out = append(out, "coverage floor: no "+k)
 			}
@@ -92,7 +93,7 @@ func initDerivedLeaves() {
 }
 
 var tLeaves = []tLeaf{
-	{"null", false, true, true, false}, {"dnilp", false, true, true, false}, {"missing", false, true, true, false}, {"dnil", false, true, true, false},
+	{"null", false, true, true, false}, {"dnilp", false, true, true, false}, {"dnd", false, true, true, false}, {"fnd()", false, true, true, false}, {".5", true, false, true, false}, {".0", false, false, true, false}, {"missing", false, true, true, false}, {"dnil", false, true, true, false},
 	{"false", false, false, true, false}, {"true", true, false, true, false},
 	{"0", false, false, true, false}, {"(0*-1)", false, false, true, false}, {"0.0", false, false, true, false}, {"0e5", false, false, true, false}, {"dz", false, false, true, false},
 	{"df0", false, false, true, false}, {"dnegz", false, false, true, false}, {"dnan", false, false, true, false}, {"(0/0)", false, false, true, false},
@@ -109,7 +110,7 @@ type tStruct struct{ A int }
 
 func c06Data(log *[]string) map[string]interface{} {
 	return map[string]interface{}{
-		"dnilp": (*int)(nil), "dnil": nil, "dz": 0, "df0": 0.0, "dnegz": math.Copysign(0, -1), "dnan": math.NaN(), "dinf": math.Inf(1), "dninf": math.Inf(-1),
+		"dnilp": (*int)(nil), "dnil": nil, "dnd": (*decimal.Big)(nil), "fnd": func() (*decimal.Big, error) { return nil, nil }, "dz": 0, "df0": 0.0, "dnegz": math.Copysign(0, -1), "dnan": math.NaN(), "dinf": math.Inf(1), "dninf": math.Inf(-1),
 		"dtiny": decimal.New(1, 500), "dbig": decimal.New(7, -500), "di7": int64(7), "des": "", "ds": "str", "darr": []interface{}{1, "x"}, "dearr": []interface{}{}, "dm": map[string]interface{}{"k": 1}, "dem": map[string]interface{}{},
 		"dt": time.Unix(1700000000, 0).UTC(), "dfn": func() (int, error) { return 1, nil }, "dst": tStruct{3}, "dpst": &tStruct{4},
 		"rec": func(tag string) (string, error) { *log = append(*log, tag); return tag, nil },
@@ -121,9 +122,38 @@ type TNode struct {
 	K    string   `json:"k"` // leaf not notnot cond and or nn
 	I    int      `json:"i,omitempty"`
 	Kids []*TNode `json:"kids,omitempty"`
+	// Flat (on the root): written with the parentheses the grammar requires and no others, tokens set tightly
+	// (`a||b??c`, `c?.5:x`): precedence and associativity decide the grouping
+	Flat bool `json:"flat,omitempty"`
+}
+
+// refTree builds the reference tree of the expression (leaves are parsed by the reference parser).
+func (n *TNode) refTree() *ref.Node {
+	switch n.K {
+	case "leaf":
+		pr := ref.Parse([]byte(tLeaves[n.I].Src))
+		if pr.Tree == nil {
+			return ref.ID("unparsable_leaf")
+		}
+		return pr.Tree
+	case "not":
+		return ref.Pre("!", n.Kids[0].refTree())
+	case "notnot":
+		return ref.Pre("!!", n.Kids[0].refTree())
+	case "cond":
+		return ref.Cond(n.Kids[0].refTree(), n.Kids[1].refTree(), n.Kids[2].refTree())
+	case "and":
+		return ref.Bin("&&", n.Kids[0].refTree(), n.Kids[1].refTree())
+	case "or":
+		return ref.Bin("||", n.Kids[0].refTree(), n.Kids[1].refTree())
+	}
+	return ref.Bin("??", n.Kids[0].refTree(), n.Kids[1].refTree())
 }
 
 func (n *TNode) Src() string {
+	if n.Flat {
+		return ref.Print(n.refTree())
+	}
 	switch n.K {
 	case "leaf":
 		return tLeaves[n.I].Src
@@ -570,10 +600,45 @@ func runC06(w *core.W) {
 		}
 	}
 	w.ExhaustivePart(fmt.Sprintf("every operator on every (pair of) the %d operand values at depth 1", len(tLeaves)))
+	// every unparenthesised chain of two selection operators over a representative of each truthiness class
+	reps := []int{}
+	for i, l := range tLeaves {
+		switch l.Src {
+		case "null", "false", "0", "''", "1", "'a'", "dnan", "true", ".5", "dnilp":
+			reps = append(reps, i)
+		}
+	}
+	for _, a := range reps {
+		for _, b := range reps {
+			for _, c := range reps {
+				for _, k1 := range []string{"and", "or", "nn"} {
+					for _, k2 := range []string{"and", "or", "nn"} {
+						idx++
+						if !w.Mine(idx) {
+							continue
+						}
+						// left-nested and right-nested trees print as the same flat text only for the grouping the grammar gives it
+						c06Select(w, &TNode{K: k2, Kids: []*TNode{{K: k1, Kids: []*TNode{leaf(a), leaf(b)}}, leaf(c)}, Flat: true})
+						c06Select(w, &TNode{K: k1, Kids: []*TNode{leaf(a), {K: k2, Kids: []*TNode{leaf(b), leaf(c)}}}, Flat: true})
+						w.Count("flat_cases")
+					}
+				}
+				idx++
+				if w.Mine(idx) {
+					c06Select(w, &TNode{K: "cond", Kids: []*TNode{leaf(a), leaf(b), leaf(c)}, Flat: true})
+					c06Select(w, &TNode{K: "cond", Kids: []*TNode{{K: "or", Kids: []*TNode{leaf(a), leaf(b)}}, leaf(c), {K: "nn", Kids: []*TNode{leaf(b), leaf(a)}}}, Flat: true})
+				}
+			}
+		}
+	}
 	// nested
 	r := w.RNG("nested")
 	for i, n := 0, w.Pick(48000, 600000); i < n; i++ {
 		t := randTNode(r, 2+r.Intn(2))
+		if i%2 == 1 {
+			t.Flat = true
+			w.Count("flat_cases")
+		}
 		c06Select(w, t)
 		w.Count("nested_cases")
 		if i%1501 == 0 {
